@@ -156,6 +156,16 @@ CHECKS["C12"] = dict(
     design="DESIGN.md section 3 / C12",
 )
 
+CHECKS["C18"] = dict(
+    technique="abstract interpretation of SVGShape.might_paint over the full product of paint attributes and geometry classes compared with a reference predicate; sibling call-site analysis of the verdict's receivers; structural checks of remove_unpainted_shapes and path_area",
+    text="The verdict ladder is a finite decision procedure over attribute classes plus one computed area: it is interpreted on every combination "
+         "(556 cases incl. style-resolved display, zero-length geometry and the Skia-error path) and must equal 'visible stroke, or visible fill with "
+         "area > 0' with an exact-zero comparison; every site where a negative verdict deletes content must ask a receiver that carries the "
+         "content's own paint.",
+    note="Not applicable: whether Skia reports exactly zero area for sub-resolution slivers.",
+    design="DESIGN.md section 3 / C18",
+)
+
 NOT_APPLICABLE = {}
 
 
